@@ -181,7 +181,7 @@ pub fn run(ctx: &mut Ctx) {
         for ratio in [0.0, 1.0 / 7.0, 0.25, 1.0 / 3.0, 0.5, 1.0, 1.5, f64::NAN, f64::INFINITY] {
             for vel in [0.0, 0.1, 1.0, 5.0] {
                 for sd in [1.0, 36.0, 72.0, 1000.0] {
-                    for total in [1.0, 100.0, 1000.0, 100_001.0] {
+                    for total in [0.0, 1.0, 100.0, 1000.0, 100_001.0] {
                         for start in [0.0, -500.0, 12_345.678] {
                             idx += 1;
                             if idx % ctx.nshards != ctx.shard {
@@ -209,7 +209,7 @@ pub fn run(ctx: &mut Ctx) {
         }
     }
     ctx.report.exhaustive = Some(true);
-    ctx.note("exhaustive part: span counts 1-6 x tick/length ratios {0,1/7,1/4,1/3,1/2,1,3/2,NaN,inf} x velocities {0,0.1,1,5} x span durations {1,36,72,1000} x lengths {1,100,1000,100001} x 3 start times, each with a junk-filled buffer and after an abandoned iterator");
+    ctx.note("exhaustive part: span counts 1-6 x tick/length ratios {0,1/7,1/4,1/3,1/2,1,3/2,NaN,inf} x velocities {0,0.1,1,5} x span durations {1,36,72,1000} x lengths {0,1,100,1000,100001} x 3 start times, each with a junk-filled buffer and after an abandoned iterator");
 
     // ---- random parameters in playable ranges + histories sharing one buffer
     let n = ctx.n(200_000, 5_000_000);
@@ -365,7 +365,8 @@ fn random_params(r: &mut Rng) -> Params {
     if r.chance(1, 8) {
         return cutoff_params(r);
     }
-    let total = match r.below(6) {
+    let total = match r.below(7) {
+        6 => [0.0, -0.0, 0.0, 1e-300][r.below(4)],
         0 => r.f() * 10.0,
         1 => 100_000.0 + r.f() * 1000.0,
         _ => 10.0 + r.f() * 800.0,
